@@ -151,6 +151,9 @@ def run(pid, tier):
                           {"actions": [e["act"] for e in t], "error": t[-1]["error"]})
     rep.extra["spec_drift_steps"] = ndrift
     rep.extra["s2c_mismatching_transitions"] = len(mism)
+    if pid == "C08":
+        from . import datamodel
+        datamodel.observe(rep, rng, quick)
     rep.rule = ("S2C: every transition TLC generates for T2Grid (depth<=%d, names %s) replayed on the real t2grid, "
                 "distinct = (pre-state, action); C2S: seeded random in-domain edit sequences, distinct = action with "
                 "arguments; a case is non-trivial when the action changes the grid" % (sdepth, "".join(sbase)))
